@@ -401,14 +401,19 @@ def pool(contract, seed=0, limit=4000):
         yield from cap((fn, (mk(), v, UNBOUND_PROPERTY)) for mk in instances_of("Not") for v in vals)
         return
     if key.split(":")[0].endswith("parser") and meth in ("parse_element", "_parse_contains", "_parse_property_names", "_parse_additional_properties",
-                                                         "_parse_additional_items"):
+                                                         "_parse_additional_items", "_parse_items", "_parse_properties", "_parse_pattern_properties",
+                                                         "_parse_dependencies"):
         import copy
         from bounded import schemas
         docs = schemas.quick()
         for kw in ("if", "then", "$defs", "unevaluatedItems"):
             docs += [{kw: {}}, {"type": "string", kw: {}}, {"contains": {kw: {}}}, {"propertyNames": {kw: True}}, {"additionalProperties": {kw: {}}},
                      {"items": [{}], "additionalItems": {kw: {}}}, {"additionalItems": {kw: {}}}, {"items": {"type": "string"}, "additionalItems": {kw: {}}},
-                     {"properties": {"a": {}}, "additionalProperties": {kw: {}}}]
+                     {"properties": {"a": {}}, "additionalProperties": {kw: {}}},
+                     {"items": {kw: {}}}, {"items": [{}, {kw: {}}]}, {"items": [{kw: {}}]}, {"items": [{"type": "string"}, True]},
+                     {"properties": {"a": {kw: {}}}}, {"properties": {"a": {"type": "string"}, "b": {kw: True}}, "required": ["a"]},
+                     {"patternProperties": {"^a": {kw: {}}}}, {"patternProperties": {"^a": {}, "^b": {kw: {}}}},
+                     {"dependencies": {"a": {kw: {}}, "b": ["a"]}}, {"dependencies": {"a": ["b"], "c": {"type": "object", "title": "T"}, "d": {kw: 1}}}]
         yield from cap((fn, (copy.deepcopy(d), None)) for d in docs)
         return
     if cls_name == "Object" and meth == "__new__":
